@@ -603,24 +603,11 @@ func splitSexp(s string) []string {
 }
 
 func (ex *Exec) litValue(s string) (int64, bool) {
-	if ex.vc.mode == ModeBV {
-		if strings.HasPrefix(s, "(_ bv") {
-			f := strings.Fields(s[5:])
-			v, err := strconv.ParseUint(f[0], 10, 64)
-			return int64(v), err == nil
-		}
-		return 0, false
-	}
 	v, err := strconv.ParseInt(s, 10, 64)
 	return v, err == nil
 }
 
-func (ex *Exec) idxAdd(a, b string) string {
-	if ex.vc.mode == ModeBV {
-		return sx("bvadd", a, b)
-	}
-	return sx("+", a, b)
-}
+func (ex *Exec) idxAdd(a, b string) string { return sx("+", a, b) }
 
 func (ex *Exec) builtin(fr *Frame, st *State, b *ssa.Builtin, c *ssa.CallCommon, pos token.Pos) Value {
 	tc := ex.vc.tc
@@ -710,12 +697,7 @@ func (ex *Exec) appendSlices(st *State, s, t Term) Term {
 	lt := func(a, b string) string { return ex.cmpIdx("<", a, b) }
 	le := func(a, b string) string { return ex.cmpIdx("<=", a, b) }
 	ex.assume(st, fmt.Sprintf("(forall ((qk! %s)) (! (=> (and %s %s) (= (select %s qk!) (select %s qk!))) :pattern ((select %s qk!))))", ix, le(tc.idxLit(0), "qk!"), lt("qk!", slen), na, sarr, na))
-	var minus string
-	if vc.mode == ModeBV {
-		minus = sx("bvsub", "qk!", slen)
-	} else {
-		minus = sx("-", "qk!", slen)
-	}
+	minus := sx("-", "qk!", slen)
 	ex.assume(st, fmt.Sprintf("(forall ((qk! %s)) (! (=> (and %s %s) (= (select %s qk!) (select %s %s))) :pattern ((select %s qk!))))", ix, le(slen, "qk!"), lt("qk!", ex.idxAdd(slen, tlen)), na, tarr, minus, na))
 	return Term{S: vc.define("app", so, sx("mk_"+so, na, ex.idxAdd(slen, tlen))), T: s.T}
 }
